@@ -97,7 +97,7 @@ class Requestant(httping.Parsent):
         # create generator
         lineParser = httping.parseLine(raw=self.msg, eols=(CRLF, LF), kind="status line")
         while True:  # parse until we get full start line
-            if self.closed:  # connection closed prematurely
+            if self.closed and not self.msg:  # connection closed prematurely
                 raise httping.PrematureClosure("Connection closed unexpectedly "
                                                "while parsing request start line")
 
@@ -139,7 +139,7 @@ class Requestant(httping.Parsent):
                                    eols=(CRLF, LF),
                                    kind="leader header line")
         while True:
-            if self.closed:  # connection closed prematurely
+            if self.closed and not self.msg:  # connection closed prematurely
                 raise httping.PrematureClosure("Connection closed unexpectedly "
                                                "while parsing request header")
 
@@ -207,12 +207,11 @@ class Requestant(httping.Parsent):
         if self.chunked:  # chunked takes precedence over length
             self.parms = dict()
             while True:  # parse all chunks here
-                if self.closed:  # connection closed prematurely
-                    raise httping.PrematureClosure("Connection closed unexpectedly"
-                                                   " while parsing request body chunk")
-
                 chunkParser = httping.parseChunk(raw=self.msg)
                 while True:  # parse another chunk
+                    if self.closed and not self.msg:  # connection closed prematurely
+                        raise httping.PrematureClosure("Connection closed unexpectedly"
+                                                   " while parsing request body chunk")
                     result = next(chunkParser)
                     if result is not None:
                         chunkParser.close()
@@ -227,7 +226,7 @@ class Requestant(httping.Parsent):
                 if size:  # size non zero so append chunk but keep iterating
                     self.body.extend(chunk)
 
-                    if self.closed:  # no more data so finish
+                    if self.closed and not self.msg:  # no more data so finish
                         chunkParser.close()
                         break
 
